@@ -69,14 +69,25 @@ def run(ctx):
     traces, info = [], {}
     tables = {"leaves": {n: {} for n, _ in trans}, "skels": {n: {} for n, _ in trans}}
     seen = set()
-    for plan in PLANS[ctx.tier]:
+    quick = ctx.tier == "quick"
+
+    def generate(plan):
         prof, mo = plan[0], plan[1]
         consts = {"MaxOps": mo, "Profile": '"%s"' % prof, "Backend": '"sqlite"'}
+        w = 6 if quick else 16
         if len(plan) == 3:
-            res = tlc.run("MC_C09", constants=consts, simulate=max(1, plan[2] // 16), depth=40, seed=ctx.seed + 9,
-                          keep_lines=lambda r: r.get("k") == "case", timeout=7000, heap="12g", check_count=False)
-        else:
-            res = tlc.run("MC_C09", constants=consts, keep_lines=lambda r: r.get("k") == "case", timeout=7000, heap="12g")
+            return tlc.run("MC_C09", constants=consts, simulate=max(1, plan[2] // w), depth=40, seed=ctx.seed + 9, workers=w,
+                           keep_lines=lambda r: r.get("k") == "case", timeout=7000, heap="4g" if quick else "12g", check_count=False)
+        return tlc.run("MC_C09", constants=consts, keep_lines=lambda r: r.get("k") == "case", timeout=7000,
+                       heap="4g" if quick else "12g", workers=w)
+
+    results = None
+    if quick:       # independent generator runs: start them together
+        from concurrent.futures import ThreadPoolExecutor
+        with ThreadPoolExecutor(max_workers=4) as pool:
+            results = list(pool.map(generate, PLANS[ctx.tier]))
+    for pi, plan in enumerate(PLANS[ctx.tier]):
+        res = results[pi] if results is not None else generate(plan)
         ctx.add_tlc(res)
         for r in res.records:
             kx = json.dumps(r["tree"])
